@@ -526,6 +526,8 @@ func (g *revGen) cond(depth int) *Node {
 		}
 	case x < 50:
 		n.Ex = &Node{T: "nil"}
+	case x < 60 && depth < g.maxDepth:
+		n.Ex = g.cond(depth + 1) // a Condition-valued Condition (its Stack, if any, is none of Reveal's business)
 	default:
 		n.Ex = g.leaf()
 	}
@@ -665,7 +667,7 @@ func genReveal(ctx *Ctx, emit func(any, string)) {
 	rec(nil, maxChain)
 	for _, ch := range chains {
 		for ti := range tm {
-			for shape := 0; shape < 4; shape++ {
+			for shape := 0; shape < 5; shape++ {
 				k := 0
 				ids := func() string { k++; return fmt.Sprintf("n%d", k-1) }
 				rootID := ids()
@@ -690,6 +692,15 @@ func genReveal(ctx *Ctx, emit func(any, string)) {
 						Ex: &Node{T: "stack", ID: ids(), Kind: "OR", A: "aval", Mutex: true,
 							Els: []*Node{{T: "stack", ID: ids(), Kind: "AND", Els: []*Node{{T: "str", S: "e1"}, {T: "str", S: "e2"}}}}}}
 					root.Els = []*Node{c0, mkChain()}
+				case 4:
+					// slot 0: a Condition holding a Condition holding a (wrapped) Stack; next to it the chain
+					if len(ch) == 0 {
+						continue
+					}
+					inner := &Node{T: "cond", ID: ids(), Kw: "inner", Op: &OpDesc{Builtin: 2},
+						Ex: &Node{T: "stack", ID: ids(), Kind: "OR", Mutex: true,
+							Els: []*Node{{T: "stack", ID: ids(), Kind: "AND", Els: []*Node{{T: "str", S: "e1"}, {T: "str", S: "e2"}}}}}}
+					root.Els = []*Node{{T: "cond", ID: ids(), Kw: "outer", Op: &OpDesc{Builtin: 3}, Ex: inner}, mkChain()}
 				case 3:
 					if len(ch) == 0 {
 						continue
@@ -721,5 +732,5 @@ func genReveal(ctx *Ctx, emit func(any, string)) {
 
 func init() {
 	register(&Family{Name: "reveal", Gen: genReveal, Run: runReveal,
-		Rule: "exhaustive: root shapes {[chain], [leaf,chain], [cond(stack),chain], fwd-index [chain,leaf,chain]} x every chain of <=2 (quick) / <=4 (thorough) single-slot wrappers over {plain+mutex, plain, parenthetical, NOT, plain+forward-index+mutex, plain typed as alias} x 8 terminals {2-leaf stack (mutex), parenthetical 2-leaf stack, Condition, parenthetical Condition, leaf, empty stack, zero Stack, Condition holding a wrapped stack}; zero / empty / read-only receivers; random: trees of depth <=5, width <=3, 45% single-slot stacks, 5 kinds, parenthetical 25%, forward/negative-index/no-nesting/read-only bits, mutex on 30% of the nodes, 18% alias-typed nodes, Conditions (45% holding a stack; no-nesting / read-only / error-state ones), nil slots, zero instances, empty stacks. Observed: returned or not (1.5 s watchdog), pre-order walk afterwards (typing, kind, option word, ID of every node; leaves; keyword/operator), mutex events by node ID. distinct = distinct input hash; non-trivial = >=2 nested stacks, >=4 nodes and a single-slot chain, a redundant wrapper or a Condition holding a stack"})
+		Rule: "exhaustive: root shapes {[chain], [leaf,chain], [cond(stack),chain], [cond(cond(stack)),chain], fwd-index [chain,leaf,chain]} x every chain of <=2 (quick) / <=4 (thorough) single-slot wrappers over {plain+mutex, plain, parenthetical, NOT, plain+forward-index+mutex, plain typed as alias} x 8 terminals {2-leaf stack (mutex), parenthetical 2-leaf stack, Condition, parenthetical Condition, leaf, empty stack, zero Stack, Condition holding a wrapped stack}; zero / empty / read-only receivers; random: trees of depth <=5, width <=3, 45% single-slot stacks, 5 kinds, parenthetical 25%, forward/negative-index/no-nesting/read-only bits, mutex on 30% of the nodes, 18% alias-typed nodes, Conditions (45% holding a stack; no-nesting / read-only / error-state ones), nil slots, zero instances, empty stacks. Observed: returned or not (1.5 s watchdog), pre-order walk afterwards (typing, kind, option word, ID of every node; leaves; keyword/operator), mutex events by node ID. distinct = distinct input hash; non-trivial = >=2 nested stacks, >=4 nodes and a single-slot chain, a redundant wrapper or a Condition holding a stack"})
 }
